@@ -499,11 +499,21 @@ def check_python_version(program: str) -> None:
         )
 
 
+def _is_note(message: str) -> bool:
+    """Is this formatted message (text or JSON output format) a note?"""
+    if message.startswith("{"):
+        return '"severity": "note"' in message
+    # The severity marker precedes the message text, which may itself contain ": note:".
+    note = message.find(": note:")
+    error = message.find(": error:")
+    return note >= 0 and (error < 0 or note < error)
+
+
 def count_stats(messages: list[str]) -> tuple[int, int, int]:
     """Count total number of errors, notes and error_files in message list."""
     errors = [e for e in messages if ": error:" in e]
     error_files = {e.split(":")[0] for e in errors}
-    notes = [e for e in messages if ": note:" in e]
+    notes = [e for e in messages if _is_note(e)]
     return len(errors), len(notes), len(error_files)
 
 
